@@ -112,3 +112,8 @@ func (t *Tape) Perm(n int) []int {
 	}
 	return p
 }
+
+// Small draws from [0,n) but generates values below typical (n leaves room for forced/enumerated values).
+func (t *Tape) Small(n, typical int) int {
+	return t.Draw(n, func() int { return t.rng.IntN(typical) })
+}
